@@ -145,6 +145,18 @@ fn forged_variant(received: &[u8], expected: &[u8], other_tags: &[Vec<u8>]) -> S
     }
 }
 
+/// producers (`compute_shared_hmac`, `client_hmac`, `server_hmac`, the LSS ones, `append_hmac_to_value`) must tag
+/// exactly the presented input: secret ‖ nonce-or-domain ‖ records, resp. key ‖ version ‖ content
+fn check_produced(i: usize, what: &str, produced: &[u8], expected: &[u8], input: String, viol: &mut Vec<Violation>) {
+    if produced != expected {
+        viol.push(Violation {
+            kind: "c17-tag-not-over-exact-input".into(),
+            desc: format!("{} produced {} for {}; the tag over exactly this input is {}", what, hexs(produced), input, hexs(expected)),
+            at: i,
+        });
+    }
+}
+
 pub struct C17Hmac;
 
 #[derive(Default)]
@@ -153,6 +165,8 @@ struct Monitor {
     shared: BTreeMap<(Vec<u8>, Vec<u8>), (Vec<u8>, Vec<Rec>, usize)>,
     /// (secret, tag) → first accepted triple
     value: BTreeMap<(Vec<u8>, Vec<u8>), (Rec, usize)>,
+    /// ((secret, content), ciphertext head, (key, version)) seen by `encx`
+    cipher: Vec<((Vec<u8>, Vec<u8>), Vec<u8>, (Vec<u8>, u64))>,
 }
 
 impl Monitor {
@@ -256,6 +270,8 @@ fn exec_line(line: &str, i: usize, mon: &mut Monitor, hs: &mut HState, co: &mut 
                     let (kind, what) = match replay {
                         Some((j, r)) => ("c17-replayed-reply-accepted".to_string(),
                             format!("the reply recorded for request {} (nonce {})", j + 1, hexs(&r.0))),
+                        None if cur != vec![0u8; 32] && ref_shared_tag(&hs.secret, &[0u8; 32], &rs) == tag =>
+                            ("c17-forged-tag-accepted:tag-of-initial-nonce".to_string(), "the tag under the helper's initial all-zero nonce".to_string()),
                         None => (format!("c17-forged-tag-accepted:{}", forged_variant(&tag, &expected, &[])), "a tag".to_string()),
                     };
                     co.violations.push(Violation {
@@ -267,6 +283,15 @@ fn exec_line(line: &str, i: usize, mon: &mut Monitor, hs: &mut HState, co: &mut 
                 }
             } else {
                 co.tags.insert("check:false".into());
+                // non-vacuity: the exact tag of exactly this request and these records must pass
+                let cur = hs.requests.last().map(|r| r.0.to_vec()).unwrap_or(vec![0u8; 32]);
+                if tag == ref_shared_tag(&hs.secret, &cur, &rs) {
+                    co.violations.push(Violation {
+                        kind: "c17-genuine-reply-refused".into(),
+                        desc: format!("check_hmac refused the genuine tag {} of request {} (nonce {}) records[{}]", hexs(&tag), hs.requests.len(), hexs(&cur), show_recs(&rs)),
+                        at: i,
+                    });
+                }
             }
             ok.to_string()
         }
@@ -274,8 +299,47 @@ fn exec_line(line: &str, i: usize, mon: &mut Monitor, hs: &mut HState, co: &mut 
             let (s, n, rs) = (unhex(t[1]), unhex(t[2]), parse_recs(&t[3..]));
             let m = match to_mutations(&rs) { Some(m) => m, None => return "bad-key".into() };
             let tag = compute_shared_hmac(&s, &n, &m);
+            check_produced(i, "compute_shared_hmac", &tag, &ref_shared_tag(&s, &n, &rs), format!("nonce {} records[{}]", hexs(&n), show_recs(&rs)), &mut co.violations);
             mon.shared_input(i, &s, &n, &rs, &tag, &mut co.violations);
             hexs(&tag)
+        }
+        // the lightning-storage-server client library's own compute_shared_hmac (used by its client driver for the
+        // client/server tags and the get reply); same encoding as the vls-core one: the model line is `shared`
+        "lshared" => {
+            let (s, n, rs) = (unhex(t[1]), unhex(t[2]), parse_recs(&t[3..]));
+            let mut kvs: Vec<(String, Value)> = Vec::new();
+            for (k, v, x) in &rs {
+                match String::from_utf8(k.clone()) {
+                    Ok(ks) => kvs.push((ks, Value { version: *v as i64, value: x.clone() })),
+                    Err(_) => return "bad-key".into(),
+                }
+            }
+            let tag = lssu::compute_shared_hmac(&s, &n, &kvs);
+            check_produced(i, "lss compute_shared_hmac", &tag, &ref_shared_tag(&s, &n, &rs), format!("nonce {} records[{}]", hexs(&n), show_recs(&rs)), &mut co.violations);
+            mon.shared_input(i, &s, &n, &rs, &tag, &mut co.violations);
+            hexs(&tag)
+        }
+        // implementation only: ciphertext of prepare_value_for_put; the keystream must depend on key and version
+        "encx" => {
+            let (s, k, v, x) = (unhex(t[1]), unhex(t[2]), t[3].parse::<u64>().expect("version"), unhex(t[4]));
+            let ks = match String::from_utf8(k.clone()) { Ok(s) => s, Err(_) => return "bad-key".into() };
+            let mut val = Value { version: v as i64, value: x.clone() };
+            lssu::prepare_value_for_put(&s, &ks, &mut val);
+            let n = x.len().min(16).min(val.value.len());
+            if n >= 8 {
+                let head = val.value[..n].to_vec();
+                let slot = (s.clone(), x.clone());
+                match mon.cipher.iter().find(|(sl, h, kv)| *sl == slot && *h == head && *kv != (k.clone(), v)) {
+                    Some((_, _, (k0, v0))) => co.violations.push(Violation {
+                        kind: "c17-keystream-reused".into(),
+                        desc: format!("the same content encrypts to the same bytes {} under (key {}, version {}) and (key {}, version {}): the cipher nonce is not bound to key and version",
+                            hexs(&head), hexs(k0), v0, hexs(&k), v),
+                        at: i,
+                    }),
+                    None => mon.cipher.push((slot, head, (k.clone(), v))),
+                }
+            }
+            hexs(&val.value)
         }
         "client" | "server" => {
             let (s, rs) = (unhex(t[1]), parse_recs(&t[2..]));
@@ -283,6 +347,7 @@ fn exec_line(line: &str, i: usize, mon: &mut Monitor, hs: &mut HState, co: &mut 
             let s32 = match arr32(&s) { Some(a) => a, None => return "bad-secret".into() };
             let h = ExternalPersistHelper::new(s32);
             let (tag, nonce) = if t[0] == "client" { (h.client_hmac(&m), vec![1u8]) } else { (h.server_hmac(&m), vec![2u8]) };
+            check_produced(i, t[0], &tag, &ref_shared_tag(&s, &nonce, &rs), format!("domain {} records[{}]", hexs(&nonce), show_recs(&rs)), &mut co.violations);
             mon.shared_input(i, &s, &nonce, &rs, &tag, &mut co.violations);
             hexs(&tag)
         }
@@ -310,6 +375,13 @@ fn exec_line(line: &str, i: usize, mon: &mut Monitor, hs: &mut HState, co: &mut 
                 mon.shared_input(i, &s, &n, &rs, &tag, &mut co.violations);
             } else {
                 co.tags.insert("check:false".into());
+                if tag == ref_shared_tag(&s, &n, &rs) {
+                    co.violations.push(Violation {
+                        kind: "c17-genuine-reply-refused".into(),
+                        desc: format!("check_hmac refused the genuine tag {} for nonce {} records[{}]", hexs(&tag), hexs(&n), show_recs(&rs)),
+                        at: i,
+                    });
+                }
             }
             ok.to_string()
         }
@@ -323,6 +395,10 @@ fn exec_line(line: &str, i: usize, mon: &mut Monitor, hs: &mut HState, co: &mut 
             lssu::crypt_value(&s, &ks, v as i64, &mut val.value);
             if val.value.len() >= 32 {
                 let tag = val.value[val.value.len() - 32..].to_vec();
+                let mut exact = x.clone();
+                exact.extend(ref_value_tag(&s, &(k.clone(), v, x.clone())));
+                check_produced(i, "prepare_value_for_put (cipher layer removed)", &val.value, &exact,
+                    format!("(key {}, version {}, value {})", hexs(&k), v, hexs(&x)), &mut co.violations);
                 mon.value_input(i, &s, &(k, v, x), &tag, &mut co.violations);
             }
             hexs(&val.value)
@@ -362,7 +438,21 @@ fn exec_line(line: &str, i: usize, mon: &mut Monitor, hs: &mut HState, co: &mut 
                     mon.value_input(i, &s, &(k, v, value.clone()), &tag, &mut co.violations);
                     format!("ok {}", hexs(&value))
                 }
-                Err(()) => { co.tags.insert("proc:err".into()); "err".into() }
+                Err(()) => {
+                    co.tags.insert("proc:err".into());
+                    // non-vacuity: content ‖ exact tag under exactly this key and version must pass
+                    if st.len() >= 32 {
+                        let content = st[..st.len() - 32].to_vec();
+                        if st[st.len() - 32..] == ref_value_tag(&s, &(k.clone(), v, content.clone()))[..] {
+                            co.violations.push(Violation {
+                                kind: "c17-genuine-value-refused".into(),
+                                desc: format!("remove_and_check_hmac refused the genuine stored value of (key {}, version {}, value {})", hexs(&k), v, hexs(&content)),
+                                at: i,
+                            });
+                        }
+                    }
+                    "err".into()
+                }
             }
         }
         // implementation only: the full default path with the ChaCha20 layer.  `procx S K V X K' V' MUT`:
@@ -401,7 +491,17 @@ fn exec_line(line: &str, i: usize, mon: &mut Monitor, hs: &mut HState, co: &mut 
                     co.tags.insert("procx:ok".into());
                     format!("ok {}", hexs(&back.value))
                 }
-                Err(()) => { co.tags.insert("procx:err".into()); "err".into() }
+                Err(()) => {
+                    co.tags.insert("procx:err".into());
+                    if presented == written && (k2.clone(), v2) == (k.clone(), v) {
+                        co.violations.push(Violation {
+                            kind: "c17-genuine-value-refused".into(),
+                            desc: format!("process_value_from_get refused exactly what prepare_value_for_put wrote for (key {}, version {}, value {})", hexs(&k), v, hexs(&x)),
+                            at: i,
+                        });
+                    }
+                    "err".into()
+                }
             }
         }
         _ => "bad-op".into(),
@@ -452,6 +552,13 @@ fn mutate_recs(rng: &mut Rng, base: &[Rec]) -> Vec<(String, Vec<Rec>)> {
     { let mut r = base.to_vec(); if !r[i].2.is_empty() { let p = rng.below(r[i].2.len() as u64) as usize; r[i].2[p] ^= 1 << rng.below(8); out.push(("flip-value".into(), r)); } }
     { let mut r = base.to_vec(); r[i].1 ^= 1 << rng.below(64); out.push(("flip-version".into(), r)); }
     { let mut r = base.to_vec(); if !r[i].0.is_empty() { let p = rng.below(r[i].0.len() as u64) as usize; r[i].0[p] ^= 1 << rng.below(3); if r[i].0[p] < 0x80 { out.push(("flip-key".into(), r)); } } }
+    // version negated as i64 (the LSS side carries versions as i64), version +1 / -1
+    { let mut r = base.to_vec(); r[i].1 = (r[i].1 as i64).wrapping_neg() as u64; if r[i].1 != base[i].1 { out.push(("negate-version".into(), r)); } }
+    { let mut r = base.to_vec(); r[i].1 = r[i].1.wrapping_add(1); out.push(("version-plus-one".into(), r)); }
+    // key with a separator / digit appended, key without its last character
+    { let mut r = base.to_vec(); r[i].0.push(b'/'); out.push(("key-append-slash".into(), r)); }
+    { let mut r = base.to_vec(); r[i].0.push(b'0'); out.push(("key-append-char".into(), r)); }
+    { let mut r = base.to_vec(); if r[i].0.pop().is_some() { out.push(("key-drop-last".into(), r)); } }
     // swaps
     if n > 1 {
         { let mut r = base.to_vec(); let k = r[i].0.clone(); r[i].0 = r[j].0.clone(); r[j].0 = k; out.push(("swap-keys".into(), r)); }
@@ -562,7 +669,13 @@ impl Group for C17Hmac {
         ]
     }
     fn model_line(&self, op: &str) -> Option<String> {
-        if op.starts_with("procx ") { None } else { Some(op.to_string()) }
+        if op.starts_with("procx ") || op.starts_with("encx ") {
+            None
+        } else if let Some(rest) = op.strip_prefix("lshared ") {
+            Some(format!("shared {}", rest))
+        } else {
+            Some(op.to_string())
+        }
     }
     fn gen_case(&self, rng: &mut Rng, _tier: Tier) -> Vec<String> {
         let secret = rng.bytes(32);
@@ -578,6 +691,8 @@ impl Group for C17Hmac {
             let m = to_mutations(&base).unwrap();
             let tag = compute_shared_hmac(&secret, &nonce, &m).to_vec();
             ops.push(format!("shared {} {}{}", s, n, show_recs(&base)));
+            ops.push(format!("lshared {} {}{}", s, n, show_recs(&base)));
+            ops.push(format!("lshared {} 01{}", s, show_recs(&base)));
             ops.push(format!("check {} {} {}{}", s, n, hexs(&tag), show_recs(&base)));
             ops.push(format!("client {}{}", s, show_recs(&base)));
             ops.push(format!("server {}{}", s, show_recs(&base)));
@@ -587,6 +702,7 @@ impl Group for C17Hmac {
             // the correct tag of the other nonce presented under this one
             ops.push(format!("check {} {} {}{}", s, n, hexs(&compute_shared_hmac(&secret, &n2, &m)), show_recs(&base)));
             ops.push(format!("shared {} {}{}", s, hexs(&n2), show_recs(&base)));
+            ops.push(format!("lshared {} {}{}", s, hexs(&n2), show_recs(&base)));
             let mut s2 = secret.clone(); s2[rng.below(32) as usize] ^= 1 << rng.below(8);
             ops.push(format!("check {} {} {}{}", hexs(&s2), n, hexs(&tag), show_recs(&base)));
             let mut t2 = tag.clone(); t2[rng.below(32) as usize] ^= 1 << rng.below(8);
@@ -612,6 +728,12 @@ impl Group for C17Hmac {
             // one long-lived helper: read 1 / reply 1 / read 2 / replayed reply 1 / reply 2 / ...
             {
                 ops.push(format!("hnew {}", s));
+                // before any request the helper holds its initial (all-zero) nonce
+                let tag_zero = compute_shared_hmac(&secret, &[0u8; 32], &m).to_vec();
+                if rng.chance(1, 2) {
+                    ops.push(format!("hcheck {}{}", hexs(&tag_zero), show_recs(&base)));
+                    ops.push(format!("hcheck {}{}", hexs(&tag), show_recs(&base)));
+                }
                 let reads = rng.range(2, 5) as usize;
                 let mut recorded: Vec<(Vec<u8>, Vec<Rec>)> = Vec::new(); // (tag, records) of earlier replies
                 let mut prev_e: Option<Vec<u8>> = None;
@@ -633,6 +755,9 @@ impl Group for C17Hmac {
                         if rng.chance(1, 3) { ops.push(format!("hcheck {}{}", hexs(t0), show_recs(&recs_r))); }
                     }
                     ops.push(format!("hcheck {}{}", hexs(&tag_r), show_recs(&recs_r)));
+                    // a reply made under the helper's initial all-zero nonce, and the stateless tag of the case
+                    if rng.chance(1, 2) { ops.push(format!("hcheck {}{}", hexs(&tag_zero), show_recs(&base))); }
+                    if rng.chance(1, 3) { ops.push(format!("hcheck {}{}", hexs(&compute_shared_hmac(&secret, &[0u8; 32], &mr)), show_recs(&recs_r))); }
                     if rng.chance(1, 2) { ops.push(format!("hcheck {}{}", hexs(&tag_r[..*rng.pick(&[0usize, 1, 16, 31])]), show_recs(&recs_r))); }
                     recorded.push((tag_r, recs_r));
                     prev_e = Some(e);
@@ -640,6 +765,7 @@ impl Group for C17Hmac {
             }
             for (_name, r) in mutate_recs(rng, &base) {
                 ops.push(format!("shared {} {}{}", s, n, show_recs(&r)));
+                ops.push(format!("lshared {} {}{}", s, n, show_recs(&r)));
                 if rng.chance(1, 2) {
                     ops.push(format!("check {} {} {}{}", s, n, hexs(&tag), show_recs(&r)));
                 }
@@ -675,6 +801,27 @@ impl Group for C17Hmac {
             ops.push(format!("proc {} {} {} {}", s, hexs(&k), v2, hexs(&stored)));
             ops.push(format!("procx {} {} {} {} {} {} -", s, hexs(&k), v, hexs(&x), hexs(&k), v2));
             ops.push(format!("proc {} {} {} {}", s, hexs(&k), v.wrapping_sub(1), hexs(&stored)));
+            ops.push(format!("proc {} {} {} {}", s, hexs(&k), v.wrapping_add(1), hexs(&stored)));
+            let vneg = (v as i64).wrapping_neg() as u64;
+            if vneg != v {
+                ops.push(format!("proc {} {} {} {}", s, hexs(&k), vneg, hexs(&stored)));
+                ops.push(format!("procx {} {} {} {} {} {} -", s, hexs(&k), v, hexs(&x), hexs(&k), vneg));
+            }
+            for suffix in [&b"/"[..], &b"0"[..]] {
+                let mut ka = k.clone(); ka.extend_from_slice(suffix);
+                ops.push(format!("proc {} {} {} {}", s, hexs(&ka), v, hexs(&stored)));
+                ops.push(format!("procx {} {} {} {} {} {} -", s, hexs(&k), v, hexs(&x), hexs(&ka), v));
+                // and the other way round: written under the longer key, read under the shorter one
+                ops.push(format!("procx {} {} {} {} {} {} -", s, hexs(&ka), v, hexs(&x), hexs(&k), v));
+            }
+            // the cipher layer: the same 16-byte content under this key/version, another key, another version
+            {
+                let content = hexs(&rng.bytes(16));
+                ops.push(format!("encx {} {} {} {}", s, hexs(&k), v, content));
+                ops.push(format!("encx {} {} {} {}", s, hexs(&{ let mut q = k.clone(); q.push(b'x'); q }), v, content));
+                ops.push(format!("encx {} {} {} {}", s, hexs(&k), v ^ (1 << rng.below(64)), content));
+                ops.push(format!("encx {} {} {} {}", s, hexs(&k), v.wrapping_add(1), content));
+            }
             // content changes
             let mut st2 = stored.clone(); let p = rng.below(st2.len() as u64) as usize; st2[p] ^= 1 << rng.below(8);
             ops.push(format!("proc {} {} {} {}", s, hexs(&k), v, hexs(&st2)));
@@ -753,7 +900,21 @@ impl Group for C17Hmac {
         let mut mon = Monitor::default();
         let mut hs = HState::default();
         for (i, line) in ops.iter().enumerate() {
-            let o = exec_line(line, i, &mut mon, &mut hs, &mut co);
+            let o = match std::panic::catch_unwind(std::panic::AssertUnwindSafe(|| exec_line(line, i, &mut mon, &mut hs, &mut co))) {
+                Ok(o) => o,
+                Err(_) => {
+                    // a verifying entry point must answer accept/refuse for any bytes an outsider can supply
+                    let opn = line.split(' ').next().unwrap_or("");
+                    if matches!(opn, "check" | "hcheck" | "proc" | "procx") {
+                        co.violations.push(Violation {
+                            kind: "c17-verifier-panicked".into(),
+                            desc: format!("`{}` panicked instead of returning a verdict", opn),
+                            at: i,
+                        });
+                    }
+                    "panic".to_string()
+                }
+            };
             co.tags.insert(format!("op:{}", line.split(' ').next().unwrap_or("")));
             co.out.push(o);
         }
